@@ -1,5 +1,4 @@
 import Ymq.Props.C05
 #print axioms Ymq.C05.abort_never_wrong_product
-#print axioms Ymq.C05.abort_consistent_partial
-#print axioms Ymq.C05.abort_consistent_not_rho
+#print axioms Ymq.C05.abort_consistent
 #print axioms Ymq.C05.abort_stops
